@@ -31,8 +31,11 @@ where
     fn rebuild(self, state: &mut Self::State) {
         let _guard = state.hook.clone().map(throw_error::set_error_hook);
         match (&mut state.state, self) {
-            // both errors: throw the new error and replace
+            // both errors: unregister the old error, throw the new one
             (Either::Right(_), Err(new)) => {
+                if let Some(old) = state.error.take() {
+                    throw_error::clear(&old);
+                }
                 state.error = Some(throw_error::throw(new.into()))
             }
             // both Ok: need to rebuild child
